@@ -296,6 +296,44 @@ func ruleDeadlineDirection(c *Ctx, r *R) {
 		}
 	}
 	r.ok(okTimer, "xtime.SleepContext|timer-for-d", fn.Pos(), "the sleep timer must be created with d itself")
+	// ... and the timer whose channel the select waits on is, on every path, one created for this call with d: a timer taken from
+	// a pool or a field and re-armed with Reset may still hold the expiry of its previous use in its channel (the sleep returns
+	// at once)
+	nArm := 0
+	for _, fr := range deepFrames(fn, 2) {
+		for _, op := range chanOpsOf(fr.f) {
+			for _, a := range op.arms {
+				if a.send || a.kind != "timer" {
+					continue
+				}
+				nArm++
+				fresh := false
+				why := "cannot tell which timer " + path(a.ch) + " belongs to"
+				if ld, ok := a.ch.(*ssa.UnOp); ok && ld.Op == token.MUL {
+					if fa, ok := ld.X.(*ssa.FieldAddr); ok {
+						ls := valueLeaves(fa.X, fr.chain, 0)
+						fresh = len(ls) > 0
+						for _, lf := range ls {
+							call, isCall := lf.v.(*ssa.Call)
+							if !isCall {
+								fresh, why = false, "the timer comes from "+path(lf.v)+", not from time.NewTimer(d) in this call"
+								continue
+							}
+							cal := call.Call.StaticCallee()
+							if cal == nil || fname(cal) != "NewTimer" || cal.Pkg == nil || cal.Pkg.Pkg.Path() != "time" {
+								fresh, why = false, "the timer comes from "+calleeName(&call.Call)+", not from time.NewTimer(d) in this call"
+								continue
+							}
+							if !isParamOf(call.Call.Args[0], lf.chain, dP) {
+								fresh, why = false, "the timer is created for "+path(call.Call.Args[0])+", not for d"
+							}
+						}
+					}
+				}
+				r.ok(fresh, "xtime.SleepContext|fresh-timer#"+itoa(nArm), posOf(op.in), "the select must wait on a timer freshly created with d on every path: "+why)
+			}
+		}
+	}
 	for _, fr := range deepFrames(fn, 2) {
 		for _, op := range chanOpsOf(fr.f) {
 			for _, a := range op.arms {
